@@ -4,9 +4,10 @@
 # VLAs, alloca, compound literals, static locals, automatic array/string initialisers, mixed int/double/pointer
 # parameters, pointer walks.
 #   gen_program(rng, size) -> (source, meta)
-# Shapes that hit the two open C01 findings are kept out of this stream (they have directed probes in props/c01.py):
-#   - a 1- or 2-byte integer VALUE (not an lvalue) converted to float/double       [subint-to-float-unextended]
-#   - the value of an assignment / compound assignment / prefix ++ -- to a bit-field [bitfield-assign-value-subword-top]
+# Since the fixes of subint-to-float-unextended and bitfield-assign-value-subword-top the stream also contains
+#   - 1- and 2-byte integer VALUES (casts, not lvalues) converted to float/double
+#   - the values of assignments / compound assignments / prefix ++ -- to bit-fields
+# (props/c01.py keeps the original replays as regression probes).
 import c03_progs
 from c03_progs import INTS, INTMAP, FLTS, lit
 
@@ -72,7 +73,7 @@ class Gen(c03_progs.Gen):
         self.lines.append('\tstatic unsigned cnt = %d;' % rng.randint(0, 9))
         self.lines.append('\tstatic short tab[3] = { %s, [2] = %s };' % (lit(rng, 'short'), lit(rng, 'short')))
         self.lines.append('\tcnt += (unsigned)a;')
-        self.lines.append('\ttab[cnt %% 3u] ^= (short)b;')
+        self.lines.append('\ttab[cnt % 3u] ^= (short)b;')
         self.lines.append('\tout_d(d * 2 + f);')
         self.lines.append('\treturn (long)cnt + *p + tab[1] + (d < f) + (long)(int)(f > -1000 && f < 1000 ? f * 4 : 1);')
         self.lines.append('}')
@@ -100,7 +101,7 @@ class Gen(c03_progs.Gen):
                 if f[1] in INTMAP:
                     lv.append(('%s.%s' % (n, f[0]), f[1], f[2]))
         for n, et in env.get('ptrs', []):
-            lv.append(('*%s' % n, et, None))
+            lv.append(('(*%s)' % n, et, None))
         for n, tag in env.get('sptrs', []):
             for f in self.struct_fields(tag):
                 if f[1] in INTMAP:
@@ -128,7 +129,7 @@ class Gen(c03_progs.Gen):
         if not sg and t != '_Bool':
             ops.append('<<=')
         op = rng.choice(ops)
-        usable = w is None                      # the value of an assignment to a bit-field is kept out (finding)
+        usable = True
         self.features.add('compound:' + ('bitfield' if w else 'bool' if t == '_Bool' else 'small' if ew < 32 else 'wide'))
         if op in ('++', '--'):
             post = rng.random() < 0.5
@@ -247,7 +248,7 @@ class Gen(c03_progs.Gen):
             p = self.fresh('wp')
             self.lines.append('%s%s *%s = %s;' % (ind, et, p, a))
             self.lines.append('%s%s++;' % (ind, p))
-            self.lines.append('%sout_l(*%s + (%s - %s) + (%s > %s) + %s[-1]);' % (ind, p, p, a, p, a, p))
+            self.lines.append('%sout_l((long)((unsigned long)*%s + (unsigned long)(%s - %s) + (unsigned long)(%s > %s) + (unsigned long)%s[-1]));' % (ind, p, p, a, p, a, p))
             self.lines.append('%s--%s;' % (ind, p))
             self.lines.append('%sout_l(%s == %s);' % (ind, p, a))
             env['ptrs'] = env.get('ptrs', []) + [(p, et)]
@@ -275,6 +276,8 @@ class Gen(c03_progs.Gen):
                 self.lines.append('%s%s %s = %s;' % (ind, ft, d, self.fexpr(env, ft, 2)))
             self.lines.append('%s%s++;' % (ind, d))
             self.lines.append('%sout_d(%s);' % (ind, d))
+            st = rng.choice(SUBINT)
+            self.lines.append('%sout_d((%s)(%s)%s + (%s)(%s)(%s + 1));' % (ind, ft, st, self.iexpr(env, 'int', 2), rng.choice(FLTS), rng.choice(SUBINT), self.iexpr(env, 'unsigned', 1)))
             self.lines.append('%sout_l((%s > 1.5) + (%s <= %s) * 2 + (%s != 0) * 4 + !%s * 8);' % (ind, d, d, self.fexpr(env, 'double', 1), d, d))
             t = rng.choice([n for n, _, _ in INTS])
             self.lines.append('%sout_l((%s)(%s > 0 && %s < 100 ? %s : 3));' % (ind, t if t != '_Bool' else 'int', d, d, d))
